@@ -10,7 +10,7 @@ def load_all():
 MODULES += ["util", "errors"]
 MODULES += ["output"]
 MODULES += ["validation"]
-# MODULES += ["json_"]   (json_default contract: work in progress)
+MODULES += ["json_"]
 MODULES += ["testing", "testing17"]
 MODULES += ["lemmas"]
 MODULES += ["generators"]
